@@ -887,10 +887,102 @@ def pyinclude_worker(args):
     return hutil.export(chk)
 
 
+def inv_leaf_cdef(k):
+    """what a module without includes declares (every name carries the node number: several leaves may meet in one includer)"""
+    return ("struct base%(k)d { int a; long b; }; union ub%(k)d { int x; char y; }; struct opq%(k)d; typedef struct opq%(k)d *opq%(k)d_p; "
+            "typedef struct { int q; } anon%(k)d_t; typedef struct { short z; } *named%(k)d_p; enum e%(k)d { EA%(k)d = 3, EB%(k)d };\n"
+            "#define K%(k)d 42\n") % {'k': k}
+
+
+def inv_mid_cdef(k, leaf):
+    """what an including module adds, using declarations of a leaf below it"""
+    return ("struct own%(k)d { struct base%(l)d s; union ub%(l)d u; opq%(l)d_p o; anon%(l)d_t a; named%(l)d_p q; }; "
+            "typedef struct own%(k)d own%(k)d_t; union uown%(k)d { struct base%(l)d b; int i; };") % {'k': k, 'l': leaf}
+
+
+def invariant_worker(args):
+    """validation of the representation invariant the dag:* cases assume, on the tables the working tree's Recompiler really
+    produces for FFIs that include others (C and Python targets): an aggregate that comes from an included FFI -- directly or
+    through a chain -- is listed as external, with the same kind/opaqueness and without fields; the module's own aggregates are
+    not external; the tables are sorted; '_cffi_includes' names the included modules in order.  (Concrete run of the real
+    generator over the include shapes; not a solver query.)"""
+    prop, tier, kind, shape_name, target_py = args
+    chk = hutil.sub_check(prop, tier)
+    sys.path.insert(0, os.path.join(common.REPO, 'src'))
+    import cffi
+    from cffi import recompiler, model, cffi_opcode
+    shape = SHAPES[shape_name]
+    label = 'invariant:recompiler:%s:%s' % (shape_name, 'py' if target_py else 'c')
+    nodes = [0] + reach(shape)
+    order = sorted(nodes, key=lambda k: len(reach(shape, k)))
+    F, own = {}, {}
+    for k in order:
+        f = cffi.FFI()
+        for c in shape.get(k, []):
+            f.include(F[c])
+        before = set(f._parser._declarations)
+        leaves = [n for n in reach(shape, k) if not shape.get(n)]
+        f.cdef(inv_leaf_cdef(k) if not shape.get(k) else inv_mid_cdef(k, leaves[0]))
+        own[k] = set(f._parser._declarations) - before
+        f.set_source('_c34_inv_%d' % k, None if target_py else '/* */')
+        F[k] = f
+    replay = make_replay(chk, ['struct', 'union', 'typedef'])
+    problems = []
+    for k in order:
+        r = recompiler.Recompiler(F[k], '_c34_inv_%d' % k, target_is_python=target_py)
+        r.collect_type_table()
+        r.collect_step_tables()
+        entries = dict((e.name, e) for e in r._lsts['struct_union'])
+        names = [e.name for e in r._lsts['struct_union']]
+        if names != sorted(names):
+            problems.append('module %d: struct/union table not sorted: %r' % (k, names))
+        incl = F[k]._parser._included_declarations
+        seen = 0
+        for tp in r._struct_unions:
+            e = entries.get(tp.name)
+            if e is None:
+                problems.append('module %d: %r has no table entry' % (k, tp))
+                continue
+            flags = eval(e.flags, dict(recompiler.G_FLAGS)) if isinstance(e.flags, str) else e.flags
+            ext = bool(flags & cffi_opcode.F_EXTERNAL)
+            # an anonymous struct behind 'typedef struct {...} *name_p' is declared through its named pointer type only
+            from_include = tp in incl or any(isinstance(d, model.NamedPointerType) and d.totype is tp for d in incl)
+            seen += from_include
+            if ext != from_include:
+                problems.append('module %d: %r: external flag %r but %s an included FFI' % (k, tp, ext, 'comes from' if from_include else 'does not come from'))
+            if bool(flags & cffi_opcode.F_UNION) != isinstance(tp, model.UnionType):
+                problems.append('module %d: %r: wrong union flag' % (k, tp))
+            if bool(flags & cffi_opcode.F_OPAQUE) != (tp.fldnames is None):
+                problems.append('module %d: %r: wrong opaque flag' % (k, tp))
+            if from_include and (e.c_fields or e.first_field_index != -1):
+                problems.append('module %d: %r: an external entry lists fields' % (k, tp))
+            if not from_include and tp.fldnames and not e.c_fields:
+                problems.append('module %d: %r: own aggregate without its fields' % (k, tp))
+        if shape.get(k) and not seen:
+            problems.append('module %d: no aggregate of its included FFIs is listed' % k)
+        want_inc = [F[c]._assigned_source[0] for c in shape.get(k, [])]
+        got_inc = [f_._assigned_source[0] for f_ in F[k]._included_ffis]
+        if want_inc != got_inc:
+            problems.append('module %d: includes %r, expected %r' % (k, got_inc, want_inc))
+    hutil_name = label + ':tables-satisfy-the-assumed-invariant'
+    chk.witness(label)
+    if problems:
+        chk.query(hutil_name, 'sat', 0.0, detail='; '.join(problems)[:300])
+        try:
+            ok, path = replay({})
+        except Exception as e:
+            ok, path = None, None
+        chk.report_failure('%s: %s' % (label, '; '.join(problems)), {}, path, True if ok else None)
+    else:
+        chk.query(hutil_name, 'unsat', 0.0)
+    chk.functions = [{'name': n, 'file': 'src/cffi/recompiler.py'} for n in ('Recompiler.collect_type_table', 'Recompiler.collect_step_tables', 'Recompiler._struct_ctx')]
+    return hutil.export(chk)
+
+
 def dispatch(args):
     global NAMES
     NAMES = 'abc' if args[1] == 'quick' else 'abcd'
-    return {'structs': structs_worker, 'consts': consts_worker, 'libattr': libattr_worker, 'enums': enums_worker, 'pyinclude': pyinclude_worker}[args[2]](args)
+    return {'structs': structs_worker, 'consts': consts_worker, 'libattr': libattr_worker, 'enums': enums_worker, 'pyinclude': pyinclude_worker, 'invariant': invariant_worker}[args[2]](args)
 
 
 def run(chk):
@@ -907,6 +999,9 @@ def run(chk):
             cases.append(P + ('enums', s))
         cases.append(P + ('libattr', s, False))
         cases.append(P + ('libattr', s, True))
+    for s_ in shapes:
+        for tpy in (False, True):
+            cases.append(P + ('invariant', s_, tpy))
     for L in ((6, 8, 9, 12) if quick else (5, 6, 7, 8, 9, 10, 11, 12, 14, 18)):
         cases.append(P + ('pyinclude', L))
     global NAMES
